@@ -221,7 +221,8 @@ type zzHandler struct {
 	done  chan struct{}
 	arrived atomic.Int32
 	mu      sync.Mutex
-	parked  []Channel // natively: channels whose handler goroutine waits at the gate
+	parked  []Channel // natively: channels whose handler goroutine waits at its gate
+	gates   []chan struct{}
 }
 
 func zzNewHandler() *zzHandler {
@@ -232,9 +233,11 @@ func (h *zzHandler) HandleChannel(ctx Context, ch Channel) status.Status {
 	if !zzverif.Symbolic() {
 		h.mu.Lock()
 		h.parked = append(h.parked, ch)
+		g := make(chan struct{})
+		h.gates = append(h.gates, g)
 		h.mu.Unlock()
 		h.arrived.Add(1)
-		<-h.gate
+		<-g
 		defer func() { h.done <- struct{}{} }()
 	}
 	h.calls++
@@ -265,15 +268,35 @@ func ZZ_WorkersRun(w *zzWorkers, r async.Runner) {
 // channel release).
 func (w *zzWorkers) runNext(ch *channel) bool {
 	if zzverif.Symbolic() {
-		if len(w.pending) == 0 {
-			return false
+		for i, r := range w.pending {
+			if h, ok := r.(*channelHandler); ok && (ch == nil || h.ch == ch) {
+				w.pending = append(append([]async.Runner{}, w.pending[:i]...), w.pending[i+1:]...)
+				r.Run()
+				return true
+			}
 		}
-		r := w.pending[0]
-		w.pending = w.pending[1:]
-		r.Run()
-		return true
+		return false
 	}
-	w.handler.gate <- struct{}{}
+	// natively: open the gate of the handler goroutine parked for this channel
+	var g chan struct{}
+	for try := 0; try < 500 && g == nil; try++ {
+		w.handler.mu.Lock()
+		for i, c := range w.handler.parked {
+			if w.handler.gates[i] != nil && (ch == nil || c == Channel(ch)) {
+				g = w.handler.gates[i]
+				w.handler.gates[i] = nil
+				break
+			}
+		}
+		w.handler.mu.Unlock()
+		if g == nil {
+			time.Sleep(time.Millisecond)
+		}
+	}
+	if g == nil {
+		return false
+	}
+	close(g)
 	<-w.handler.done
 	for i := 0; i < 2000 && ch != nil && !ch.freed.Load(); i++ {
 		time.Sleep(100 * time.Microsecond)
